@@ -1,9 +1,9 @@
 use crate::{
     builtins::Builtin,
     operators::{AddOrSubtractOp, EqualityOp, MultiplyOrDivideOp, UnaryOp},
-    program::{Program, ProgramLocation},
+    program::{Program, ProgramLocation, NESTING_LIMIT},
     symbol::Symbol,
-    SyntaxError, Token, TracedInterpreterError,
+    OutOfMemoryError, SyntaxError, Token, TracedInterpreterError,
 };
 
 use super::{
@@ -17,6 +17,7 @@ use super::{
 pub struct ExpressionAnalyzer<'a> {
     program: &'a mut Program,
     symbol_accesses: &'a mut SymbolAccessMap,
+    depth: usize,
 }
 
 impl<'a> ExpressionAnalyzer<'a> {
@@ -24,11 +25,18 @@ impl<'a> ExpressionAnalyzer<'a> {
         ExpressionAnalyzer {
             program,
             symbol_accesses,
+            depth: 0,
         }
     }
 
     pub fn evaluate_expression(&mut self) -> Result<ValueType, TracedInterpreterError> {
-        self.evaluate_logical_or_expression()
+        if self.depth == NESTING_LIMIT {
+            return Err(OutOfMemoryError::StackOverflow.into());
+        }
+        self.depth += 1;
+        let result = self.evaluate_logical_or_expression();
+        self.depth -= 1;
+        result
     }
 
     pub fn evaluate_array_index(&mut self) -> Result<usize, TracedInterpreterError> {
